@@ -409,6 +409,9 @@ class Interp:
             if k == 'call' and (SX.callee(e) or '').split('<')[0] in ('std::tie', 'std::make_tuple', 'std::forward_as_tuple', 'std::make_pair'):
                 # tuples of scalars, used for lexicographic comparison: a Python tuple of the current values
                 return tuple(self.expr(a, env) for a in SX.real_args(e))
+            if k == 'call' and SX.callee(e) == 'std::to_string' and len(SX.real_args(e)) == 1:
+                v_ = self.expr(SX.real_args(e)[0], env)
+                return ('%f' % v_) if isinstance(v_, float) else str(int(v_))
             if k == 'call' and SX.callee(e) in ('std::isdigit', 'isdigit') and len(SX.real_args(e)) == 1:
                 c = self.expr(SX.real_args(e)[0], env)
                 return isinstance(c, str) and len(c) == 1 and c.isdigit() and c.isascii()
@@ -550,6 +553,28 @@ class Interp:
                 return o[st:st + a[1]] if len(a) > 1 else o[st:]
             if name in ('length',):
                 return len(o)
+            NPOS = 2 ** 64 - 1
+            if name in ('find_last_not_of', 'find_last_of', 'find_first_not_of', 'find_first_of') and a and isinstance(a[0], (str, int)):
+                cs = a[0] if isinstance(a[0], str) else chr(a[0])
+                rng_ = range(len(o) - 1, -1, -1) if 'last' in name else range(len(o))
+                want_in = not name.endswith('not_of')
+                for i_ in rng_:
+                    if (o[i_] in cs) == want_in:
+                        return i_
+                return NPOS
+            if name == 'erase' and a and isinstance(a[0], int) and not isinstance(a[0], bool):
+                st = a[0] % (2 ** 64)
+                if st > len(o):
+                    raise OutOfRange('erase position %d past the end of a string of length %d' % (st, len(o)))
+                n_ = a[1] if len(a) > 1 and isinstance(a[1], int) else None
+                self.store(e['obj'], o[:st] + (o[st + n_:] if n_ is not None else ''), env)
+                return None
+            if name == 'pop_back' and o:
+                self.store(e['obj'], o[:-1], env)
+                return None
+            if name == 'resize' and a and isinstance(a[0], int):
+                self.store(e['obj'], o[:a[0]] if a[0] <= len(o) else o + '\0' * (a[0] - len(o)), env)
+                return None
             if name == 'front' and o:
                 return o[0]
             if name == 'back' and o:
@@ -567,6 +592,10 @@ class Interp:
                 return None
             if name == 'back' and isinstance(o, list) and o:
                 return o[-1]
+            if name == 'front' and isinstance(o, list) and o:
+                return o[0]
+            if name in ('front', 'back', 'pop_back') and isinstance(o, list) and not o:
+                raise OutOfRange('%s() on an empty %s' % (name, SX.show(e.get('obj'))[:30]))
             if name == 'pop_back' and isinstance(o, list) and o:
                 o.pop()
                 return None
